@@ -23,6 +23,7 @@ import RosuModel.Model.SliderEventsWire
 import RosuModel.Model.ManiaPatternWire
 import RosuModel.Model.ConvOsuWire
 import RosuModel.Model.ConvCatchWire
+import RosuModel.Model.PipelineCatchWire
 import RosuModel.Model.SkillWire
 
 open Rosu
@@ -97,6 +98,8 @@ def handle (line : String) : String :=
   | ["OCONV", refl, version, take, cs, ar, clock, sl, objs] => ConvOsu.Wire.handleOCONV refl version take cs ar clock sl objs
   | ["LTT", start, dur, ns] => ConvOsu.Wire.handleLTT start dur ns
   | ["CCONV", hr, refl, objs] => ConvCatch.Wire.handleCCONV hr refl objs
+  | ["PIPE", "catch", version, sm, tr, hr, refl, cs, ar, clock, conv, take, gidx, objs] =>
+    PipelineCatch.Wire.handlePIPEC version sm tr hr refl cs ar clock conv take gidx objs
   | _ => "bad-op"
 
 partial def loop (h : IO.FS.Stream) (out : IO.FS.Stream) : IO Unit := do
